@@ -53,7 +53,7 @@ func c12Less(a, b c12Val) bool {
 }
 
 func checkC12Srv(job *Job, res *Result) {
-	res.Rule = "SEQ over inputs: all well-formed patterns of length <= 3 over 9 bytes x 8 pattern consumers; WHERE f min max for all pairs of 13 bounds x open/closed, WHERE f op v for 6 operators x 13 values, WHEREIN subsets of size 1-2, on 18 objects of every value kind (incl. strings that differ only in case or after a common case-insensitive prefix); COUNT vs IDS and DESC vs ASC for every filter, with and without LIMIT, on a collection mixing strings and geometries in three states (built; ids changed kind and values repeated; after deletions); every SEARCH value stored twice; distinct = distinct (consumer / filter form, expected result)"
+	res.Rule = "SEQ over inputs: all well-formed patterns of length <= 3 over 9 bytes x 8 pattern consumers; WHERE f min max for all pairs of 13 bounds x open/closed, WHERE f op v for 6 operators x 13 values, WHEREIN subsets of size 1-2, on 18 objects of every value kind; the virtual fields z and properties.<path> on points with / without z and GeoJSON features (incl. strings that differ only in case or after a common case-insensitive prefix); COUNT vs IDS and DESC vs ASC for every filter, with and without LIMIT, on a collection mixing strings and geometries in three states (built; ids changed kind and values repeated; after deletions); every SEARCH value stored twice; distinct = distinct (consumer / filter form, expected result)"
 	res.Assumptions = append(res.Assumptions, "malformed patterns (glob.Match reports an error) are skipped", "NaN is excluded from the comparison matrix (its order is not documented); strings compare case-insensitively; a missing field reads as 0")
 	pa := []byte{'a', 'b', '*', '?', '[', ']', '\\', '^', '-'}
 	var pats []string
@@ -275,6 +275,51 @@ func checkC12Srv(job *Job, res *Result) {
 				}))
 			}
 		}
+		// ---- virtual fields: z (third coordinate of a point, 0 otherwise) and properties.<path> of a GeoJSON feature
+		c.Do("SET", "zk", "p1", "POINT", "1", "1", "5")
+		c.Do("SET", "zk", "p2", "POINT", "1", "2")
+		c.Do("SET", "zk", "p3", "POINT", "1", "3", "-2")
+		c.Do("SET", "zk", "p4", "FIELD", "z2", "9", "POINT", "1", "4", "5.5")
+		c.Do("SET", "zk", "ft", "OBJECT", `{"type":"Feature","geometry":{"type":"Point","coordinates":[5,1]},"properties":{"speed":7,"name":"x","nested":{"a":3}}}`)
+		c.Do("SET", "zk", "fz", "OBJECT", `{"type":"Feature","geometry":{"type":"Point","coordinates":[6,1,8]},"properties":{"speed":70}}`)
+		zvals := map[string]float64{"p1": 5, "p2": 0, "p3": -2, "p4": 5.5, "ft": 0, "fz": 8}
+		speed := map[string]float64{"ft": 7, "fz": 70}
+		nested := map[string]float64{"ft": 3}
+		vchk := func(label string, q []string, pred func(id string) bool) {
+			var want []string
+			for _, id := range []string{"ft", "fz", "p1", "p2", "p3", "p4"} {
+				if pred(id) {
+					want = append(want, id)
+				}
+			}
+			for _, cmd := range [][]string{{"SCAN", "zk"}, {"WITHIN", "zk"}, {"NEARBY", "zk"}} {
+				args := append(append([]string{}, cmd...), q...)
+				args = append(args, "IDS")
+				switch cmd[0] {
+				case "WITHIN":
+					args = append(args, "BOUNDS", "-90", "-180", "90", "180")
+				case "NEARBY":
+					args = append(args, "POINT", "1", "1")
+				}
+				got := listOf(c.Do(args...))
+				sort.Strings(got)
+				res.Evaluations++
+				res.DistinctS("virtual:" + label + cmd[0] + fmt.Sprint(len(want)))
+				if strings.Join(got, " ") != strings.Join(want, " ") {
+					res.Violate("C12/where:virtual-field:"+label, fmt.Sprintf("%v selected %v, expected %v", args, got, want), map[string]any{"query": args})
+				}
+			}
+		}
+		for _, b := range [][2]float64{{1, 10}, {-5, 0}, {0, 0}, {5, 5.5}, {6, 100}, {-100, 100}} {
+			b := b
+			vchk("z", []string{"WHERE", "z", fnum(b[0]), fnum(b[1])}, func(id string) bool { return zvals[id] >= b[0] && zvals[id] <= b[1] })
+			vchk("properties", []string{"WHERE", "properties.speed", fnum(b[0]), fnum(b[1])}, func(id string) bool { return speed[id] >= b[0] && speed[id] <= b[1] })
+			vchk("properties-nested", []string{"WHERE", "properties.nested.a", fnum(b[0]), fnum(b[1])}, func(id string) bool { return nested[id] >= b[0] && nested[id] <= b[1] })
+		}
+		vchk("z-wherein", []string{"WHEREIN", "z", "2", "5", "8"}, func(id string) bool { return zvals[id] == 5 || zvals[id] == 8 })
+		vchk("properties-wherein", []string{"WHEREIN", "properties.speed", "2", "7", "0"}, func(id string) bool { return speed[id] == 7 || speed[id] == 0 })
+		vchk("z-op", []string{"WHERE", "z", ">", "0"}, func(id string) bool { return zvals[id] > 0 })
+		vchk("z-and-field", []string{"WHERE", "z", "5", "6", "WHERE", "z2", "9", "9"}, func(id string) bool { return id == "p4" })
 		// ---- COUNT = len(IDS), DESC = reverse(ASC) on a mixed collection
 		for i := 0; i < 9; i++ {
 			if i%2 == 0 {
